@@ -2,7 +2,7 @@
 Executable AFFINE secp256k1 arithmetic on `Nat`, written with structural recursion only so that the
 kernel can run it, and free of Mathlib imports so that the compiled driver can link it.
 
-Unlike `HdwModel.Prim.Secp256k1` (Jacobian coordinates, fast, cross-tested only), this arithmetic is
+Like `HdwModel.Prim.Secp256k1` (Jacobian coordinates, fast; proved against this file in `Props/SecpJac.lean`), this arithmetic is
 PROVED to be the group law of `y² = x³ + 7` over `ZMod p` (Mathlib's `WeierstrassCurve.Affine.Point`):
 `Hdw.Props.SecpInstance.addA_sound`, `mulA_sound`, `mulG_exec`.  The driver's op `secp.affine` runs
 it next to the Jacobian code, so every check run compares the fast arithmetic (and k256) with the
